@@ -161,11 +161,12 @@ Snap(th, hiT) ==
              pending, None, hiT)
    /\ UNCHANGED <<created, dl, nm, queued, ran, dropped, dto, defname>>
 
-(* waiting_for(), deadline(): one consistent look at the outstanding events *)
+(* waiting_for(), deadline(): one consistent look at the outstanding events (also while the queued actions run: *)
+(* nothing is outstanding then)                                                                               *)
 LinRead(th, hiT) ==
    LET c == call[th] IN
-   /\ c.op \in {"wfor", "deadline"} /\ c.st = "called" /\ flusher = None
-   /\ Effect(th, [c EXCEPT !.st = "done", !.sres = Names(pending), !.ires = MaxDl(pending)], pending, None, hiT)
+   /\ c.op \in {"wfor", "deadline"} /\ c.st = "called"
+   /\ Effect(th, [c EXCEPT !.st = "done", !.sres = Names(pending), !.ires = MaxDl(pending)], pending, flusher, hiT)
    /\ UNCHANGED <<created, dl, nm, queued, ran, dropped, dto, defname>>
 (* is_set() of a sub-event / of the MultiEvent: lock-free by design (threading.Event API) *)
 LinFlag(th, hiT) ==
